@@ -8,6 +8,7 @@ All values are hashable tuples.
 """
 
 TOP = ('top',)
+TL_VALUES = {}      # table name -> frozenset of its entries (for symbolic table lookups 'tl')
 NULL = ('null',)
 UNINIT = ('uninit',)
 SETMAX = 64
@@ -114,6 +115,8 @@ def rng(v, symr, t=None):
         return (min(v[1]), max(v[1]))
     if k == 'r':
         return (v[1], v[2])
+    if k == 'tl' and v[1] in TL_VALUES:
+        return (min(TL_VALUES[v[1]]), max(TL_VALUES[v[1]]))
     if k in ('xk', 'ox', 'byte', 'tl'):
         return (0, 255)
     if k == 'bf':
@@ -291,7 +294,7 @@ def binop(op, a, b, symr, t=None):
             return a
         if b[0] == 'ox' and a == ('c', 0):
             return b
-    if op == '&' and b[0] == 'c' and b[1] > 0 and (b[1] & (b[1] + 1)) == 0 and a[0] in ('shr', 'l') and b[1] != 0xff:
+    if op == '&' and b[0] == 'c' and b[1] > 0 and (b[1] & (b[1] + 1)) == 0 and a[0] in ('shr', 'l') and not (a[0] == 'shr' and b[1] == 0xff and a[2] % 8 == 0):
         # bit field of an unwrapped non-negative linear value: (L >> s) & (2^w - 1)
         base, sh = (a[1], a[2]) if a[0] == 'shr' else (a, 0)
         rb_ = rng(base, symr)
@@ -451,6 +454,17 @@ def compare(op, a, b, symr, t=None):
         return compare_ptr(op, a, b)
     if not is_int(a) or not is_int(b):
         return None
+    for x_, y_, o_ in ((a, b, op), (b, a, FLIPV.get(op, op))):
+        if x_[0] == 'tl' and y_[0] == 'c' and x_[1] in TL_VALUES:
+            vs_ = TL_VALUES[x_[1]]
+            res_ = {_cmpv(o_, e_, y_[1]) for e_ in vs_}
+            if len(res_) == 1:
+                return res_.pop()
+            return None
+    if a[0] == 'tl' or b[0] == 'tl':
+        if a == b:
+            return op in ('==', '<=', '>=')
+        return None
     if a[0] in ('shr', 'byte', 'bf') or b[0] in ('shr', 'byte', 'bf'):
         if a == b:
             return op in ('==', '<=', '>=')
@@ -496,6 +510,13 @@ def compare(op, a, b, symr, t=None):
     if op == '>=':
         return compare('<=', b, a, symr, t)
     return None
+
+
+FLIPV = {'<': '>', '<=': '>=', '>': '<', '>=': '<='}
+
+
+def _cmpv(op, x, y):
+    return {'==': x == y, '!=': x != y, '<': x < y, '<=': x <= y, '>': x > y, '>=': x >= y}[op]
 
 
 def compare_ptr(op, a, b):
